@@ -323,6 +323,23 @@ def closeFromClient (w : World) (c : String) : World :=
 
 /-- a connection is accepted by a node (no bytes yet) -/
 def openConn (w : World) (c : String) (i : Nat) : World :=
-  { w with conns := (w.conns.filter (fun (e : String × Nat) => e.1 != c)) ++ [(c, i)] }
+  { w with conns := (w.conns.filter (fun (e : String × Nat) => e.1 != c)) ++ [(c, i)],
+           hs := (w.hs.filter (fun (e : String × Int) => e.1 != c)) ++ [(c, w.now + 3000)] }
+
+/-- the 3 s read deadline armed for the CONNECT packet fires on connections that have not got a session by then
+    (a refused connection is never read again: its deadline has no effect) -/
+def expireHandshakes (w : World) : World :=
+  w.hs.foldl (fun w e =>
+    if e.2 < w.now && w.conns.any (fun x => x.1 == e.1) && !hasSession w e.1 && !w.deaf.contains e.1
+    then closeFromClientRaw { w with hs := w.hs.filter (fun x => x.1 != e.1) } e.1
+    else w) w
+
+/-- `ms` milliseconds pass: node-failure timers, keep-alive deadlines, CONNECT deadlines -/
+def idle (w : World) (ms : Int) : World := expireHandshakes (w.idle ms)
+
+/-- `ms` milliseconds pass for the connections' read deadlines only (the harness moves a virtual clock under the
+    connections; the node-failure timers run on the real clock and are not advanced) -/
+def elapse (w : World) (ms : Int) : World :=
+  idle { w with nodes := w.nodes.map (fun n => { n with timers := n.timers.map (fun t => (t.1 + ms, t.2)) }) } ms
 
 end Wasp.Wire
